@@ -201,7 +201,7 @@ IsolationClass(st, subj, k) ==
 (***************************************************************************)
 (* hist mode: one step                                                     *)
 (***************************************************************************)
-AddBad(es) == IF es = {} THEN bad ELSE IF Len(bad) < 300 THEN bad \o SetToSeq(es) ELSE bad
+AddBad(es) == IF es = {} THEN bad ELSE IF Len(bad) < 5000 THEN bad \o SetToSeq(es) ELSE bad
 
 HistStep(e) ==
   LET st == e.step
